@@ -58,9 +58,10 @@ CASES = [
  ("C19", "basic/random.py", "        if n < 0 or n > N:\n            n = N", "        if not (0 <= n <= N):\n            n = N", "keep"),
  ("C19", "stochastic/_ranker.py", "        if n < 0 or n > N:\n            n = N", "        if not (0 < n <= N):\n            n = N", "break"),
 ]
-import py2lean_np, py2lean_scatter, py2lean_imp, py2lean_holdout, py2lean_arrow, py2lean_cand, py2lean_neg
+import py2lean_np, py2lean_scatter, py2lean_imp, py2lean_holdout, py2lean_arrow, py2lean_cand, py2lean_neg, py2lean_als
 # other per-run translators: (generated file, obligations module, generator, its Unsupported)
-OTHER = {"C20neg": ("NegC20.lean", "LK.Proofs.NegC20", py2lean_neg.translate, py2lean_neg.Unsupported),
+OTHER = {"C10als": ("AlsC10.lean", "LK.Proofs.AlsC10", py2lean_als.generate, py2lean_als.Unsupported),
+         "C20neg": ("NegC20.lean", "LK.Proofs.NegC20", py2lean_neg.translate, py2lean_neg.Unsupported),
          "C03cand": ("CandC03.lean", "LK.Proofs.CandC03", py2lean_cand.translate, py2lean_cand.Unsupported),
          "C17sc": ("ArrowScalarC17.lean", "LK.Proofs.ArrowC17", py2lean_arrow.translate_scalar, py2lean_arrow.Unsupported),
          "C17ar": ("ArrowC17.lean", "LK.Proofs.ArrowC17", py2lean_arrow.translate, py2lean_arrow.Unsupported),
@@ -70,6 +71,12 @@ OTHER = {"C20neg": ("NegC20.lean", "LK.Proofs.NegC20", py2lean_neg.translate, py
          "C08np": ("NpC08.lean", "LK.Proofs.NpC08", py2lean_np.translate_learn, py2lean_np.Unsupported),
          "C04sc": ("ScatterC04.lean", "LK.Proofs.ScatterC04", py2lean_scatter.generate, py2lean_scatter.Unsupported)}
 CASES += [
+ ("C10als", "als/_explicit.py", "    A = MMT + regI * nui\n", "    A = MMT + regI\n", "break"),
+ ("C10als", "als/_explicit.py", "    V = M.T @ vals\n", "    V = M.T @ (vals + 1.0)\n", "break"),
+ ("C10als", "als/_explicit.py", "    A = MMT + regI * len(items)\n", "    A = MMT + regI\n", "break"),
+ ("C10als", "als/_implicit.py", "        y = ctx.right.T[:, cols] @ (vals + 1.0)", "        y = ctx.right.T[:, cols] @ vals", "break"),
+ ("C10als", "als/_implicit.py", "    OtO += regmat\n", "", "break"),
+ ("C10als", "als/_explicit.py", "    A = MMT + regI * nui\n", "    A = regI * nui + MMT\n", "keep"),
  ("C20neg", "data/relationships.py", "        return locs >= 0", "        return locs > 0", "break"),
  ("C20neg", "data/relationships.py", "                    max_attempts=max_attempts - 1,\n                    weighting=weighting,", "                    max_attempts=max_attempts - 1,", "break"),
  ("C20neg", "data/relationships.py", "                    max_attempts=max_attempts - 1,", "                    max_attempts=max_attempts,", "break"),
